@@ -29,7 +29,9 @@ def _graph_cfg(n, edges):
     """n proxy agents a0..a{n-1}; agent i has an action-penalty with distinct values and a shared-reward per out-edge."""
     agents = []
     for i in range(n):
-        comps = [{"type": "action-penalty", "weight": 1.0 + i, "options": {"action_penalty": -(3 + i), "do_nothing_penalty": 0.5 + i}}]
+        comps = [{"type": "action-penalty", "weight": 1.0 + i, "options": {"action_penalty": -(3 + i), "do_nothing_penalty": 0.5 + i}},
+                 # a component switched off by weight 0 (boundary value) must contribute nothing
+                 {"type": "action-penalty", "weight": 0, "options": {"action_penalty": -50.0, "do_nothing_penalty": 70.0}}]
         for (a, b) in edges:
             if a == i:
                 comps.append({"type": "shared-reward", "weight": 0.5 + 0.25 * b, "options": {"agent_name": "a%d" % b}})
